@@ -328,5 +328,121 @@ def contracts():
 
 ASSUMPTIONS = [
     "A-OPTABLE: operator.X(a, b) computes the corresponding Python operator; the table of existing functions is CPython's operator/math/builtins of the interpreter running the check",
+    "A-RV: resolve_value(x) == x for a value x with no reference anywhere inside it (resolve_ref(x, recursive=True) empty); used only to accept a container handed back unresolved",
     "C09 closure over arbitrary expression DAGs and update histories (CacheCoherent for all nodes) is NOT proved: bounded layer only",
 ]
+
+
+# ---------------------------------------------------------------------------------------------
+# resolve_value on containers: every item is resolved (recursively), for containers of any length
+# ---------------------------------------------------------------------------------------------
+RESOLVE_REPLAY = '''import sys, os
+sys.path.insert(0, os.environ.get('PYVC_REPO', '/repo'))
+import param
+from param.parameterized import resolve_value
+class P(param.Parameterized):
+    x = param.Number(default=3)
+p = P()
+e = param.rx(5)
+bad = []
+def expect(label, arg, want):
+    try:
+        got = resolve_value(arg)
+    except Exception as ex:
+        bad.append('%s: raised %r' % (label, ex)); return
+    if got != want or type(got) is not type(want):
+        bad.append('resolve_value(%s) gave %r, the items resolve to %r' % (label, got, want))
+expect('[p.param.x]', [p.param.x], [3])
+expect('[[p.param.x]]', [[p.param.x]], [[3]])
+expect('[1, [2, [p.param.x]]]', [1, [2, [p.param.x]]], [1, [2, [3]]])
+expect('([p.param.x],)', ([p.param.x],), ([3],))
+expect('[(e, 1)]', [(e, 1)], [(5, 1)])
+expect("[{'k': p.param.x}]", [{'k': p.param.x}], [{'k': 3}])
+expect("{'k': [p.param.x]}", {'k': [p.param.x]}, {'k': [3]})
+expect("{'k': {'j': e}}", {'k': {'j': e}}, {'k': {'j': 5}})
+expect("[slice(p.param.x, None)]", [slice(p.param.x, None)], [slice(3, None)])
+expect("(1, 2)", (1, 2), (1, 2))
+expect("[]", [], [])
+if bad:
+    print('REPRODUCED: ' + bad[0]); sys.exit(1)
+print('not reproduced')
+'''
+
+
+def resolve_value_container_contract(kind):
+    """`resolve_value(<list | tuple>)`: the result is a container of the same type whose i-th item is
+    `resolve_value(item i)` — for every length; the recursive calls are replaced by the uninterpreted
+    RV (modular: each nested container is again covered by this contract)."""
+    RV = z3.Function("resolve_value_of", vm.V, vm.V)
+    RR = z3.Function("resolve_ref_of", vm.V, vm.V, vm.V)
+    SAME = z3.Function("equal_value", vm.V, vm.V, z3.BoolSort())
+    MODP = "param.parameterized"
+
+    def configure(I):
+        def rv(I, st, fv, args, kwargs, ctx):
+            r = RV(I.term(args[0]))
+            I.U.well_typed(r)
+            return [(st, Sym(r))]
+        I.contracts["resolve_value"] = rv
+
+        def rr(I, st, fv, args, kwargs, ctx):
+            # resolve_ref(x[, recursive]): a pure function of its arguments (the list of Parameters x depends on)
+            rec = args[1] if len(args) > 1 else kwargs.get("recursive", Conc(False))
+            r = RR(I.term(args[0]), I.term(rec))
+            I.U.well_typed(r)
+            I.U.axioms.append(vm.ty(r) == vm.TAG["list"])
+            return [(st, Sym(r))]
+        I.contracts["resolve_ref"] = rr
+        I.recursive_contracts = set(getattr(I, "recursive_contracts", ())) | {"resolve_value"}
+
+    def setup(I, st):
+        m, c_, fd = I.src.locate("%s:resolve_value" % MODP)
+        fv = FuncV("repo", module=m, cls=None, node=fd, self=None, qual="resolve_value")
+        if kind == "list":
+            arg = I.alloc_list(st, I.U.fresh_seq("items"))
+            seq = st.heap[arg.oid].seq
+            return fv, [arg], {}, {"arg": arg, "seq": seq, "symbols": {}}
+        t = I.U.fresh("items")
+        st.pc.append(vm.ty(t) == vm.TAG["tuple"])
+        return fv, [Sym(t)], {}, {"arg": Sym(t), "symbols": {}}
+
+    def post(I, info, st, oc):
+        if isinstance(oc, Raise):
+            return [("does-not-raise", z3.BoolVal(False))]
+        if kind == "list":
+            if not isinstance(oc, Ref) or st.heap[oc.oid].kind != "list":
+                return [("the result is a list", z3.BoolVal(False))]
+            h = st.heap[oc.oid]
+            m = h.fields.get("$map")
+            out = []
+            if oc.oid == info["arg"].oid:
+                # the argument itself is handed back: right only when resolving changes no item
+                # (A-RV: an item with NO reference anywhere inside — resolve_ref(item, recursive=True)
+                # is empty — resolves to an equal value; nothing is known about the others)
+                y = I.U.fresh("any_item")
+                hyp = [z3.Contains(info["seq"], z3.Unit(y)),
+                       z3.Implies(z3.Not(vm.truthy(RR(y, I.U.TRUE))), SAME(RV(y), y))]
+                for (f, fseq, _all) in getattr(I, "anyall_folds", []):
+                    hyp.append(f.elim_seq(fseq, y))
+                return [("a container handed back as it is has only items that resolve to themselves",
+                         z3.Implies(z3.And(hyp), SAME(RV(y), y)))]
+            if m is None:
+                raise OutOfReach("the result list is not a map over the argument (%r)" % (sorted(h.fields),))
+            seq, x, body = m
+            y = I.U.fresh("any_item")
+            out.append(("every item of the result is resolve_value(<the item at that position>)",
+                        z3.And(z3.BoolVal(z3.eq(seq, info["seq"])), z3.substitute(body, (x, y)) == RV(y))))
+            return out
+        raise OutOfReach("tuple result")
+    c = FunctionContract("%s:resolve_value" % MODP, PROP, setup, post, configure=configure,
+                         name="resolve_value[%s of any length]" % kind)
+    c.static_replay = RESOLVE_REPLAY
+    c.static_witness = "a container whose items are containers holding a reference"
+    return c
+
+
+_c09_base1 = contracts
+
+
+def contracts():
+    return _c09_base1() + [resolve_value_container_contract("list")]
